@@ -264,6 +264,9 @@ def write_opfile(path, header, histories):
             f.write('\n'.join(ops) + '\n')
 
 
+RAW_FILES = []
+
+
 def parse_out(text):
     res = {}
     cur = None
@@ -275,6 +278,8 @@ def parse_out(text):
         elif line.startswith('out='):
             if cur is not None:
                 res[cur].append(line)
+        elif line.startswith('raw:'):
+            RAW_FILES.append(line)      # `rawfiles on`: state-file bytes after a call (collected by the caller)
         elif line.strip():
             # (a library thread that never ends is reported where it was given up on: name the history)
             extra.append(line + (' hist=%s' % cur if line.startswith('THREAD-STUCK') else ''))
@@ -466,5 +471,42 @@ def coq_crosscheck(tag, items, limit=400):
                     which = ' (input %s %s: %s)' % (items[idx][0], items[idx][1], items[idx][2][:80].hex())
             return 0, ['extraction cross-check: an equation computed by the extracted model does not hold in the kernel%s: %s' % (which, ' '.join(q.stdout.split())[:400])]
         return len(items), []
+    finally:
+        shutil.rmtree(work, ignore_errors=True)
+
+
+def canonical_files_check(raw_lines, limit=3000):
+    """raw_lines = 'raw:<pj hex|->:<sj hex|->' lines printed by the harness under `rawfiles on`.  Every distinct state
+    file the library wrote must be a fixed point of the model's read-then-write (JsonWrite.pj_canonical / sj_canonical:
+    the model of serde_json::to_writer_pretty applied to what the model's reader reads gives the same bytes).
+    Returns (number of distinct files checked, list of (kind, file hex, expected hex))."""
+    pjs, sjs = set(), set()
+    for l in raw_lines:
+        f = l.strip().split(':')
+        if len(f) == 3:
+            if f[1] not in ('-',):
+                pjs.add(f[1])
+            if f[2] not in ('-',):
+                sjs.add(f[2])
+    items = [('pj', h) for h in sorted(pjs)][:limit] + [('sj', h) for h in sorted(sjs)][:limit]
+    if not items:
+        return 0, []
+    work = os.path.join(CACHE, 'canon-%d' % os.getpid())
+    os.makedirs(work, exist_ok=True)
+    try:
+        f = os.path.join(work, 'in.ops')
+        with open(f, 'w') as fh:
+            for i, (k, h) in enumerate(items):
+                fh.write('canon %s c%d %s\n' % (k, i, h))
+        p = subprocess.run([DRIVER, f], capture_output=True, text=True, timeout=900)
+        res = dict(l[6:].split('=', 1) for l in p.stdout.splitlines() if l.startswith('canon:'))
+        bad = []
+        for i, (k, h) in enumerate(items):
+            r = res.get('c%d' % i)
+            if r is None:
+                bad.append((k, h, 'no answer from the model driver: ' + p.stderr[-200:]))
+            elif r != 'ok':
+                bad.append((k, h, r[5:]))
+        return len(items), bad
     finally:
         shutil.rmtree(work, ignore_errors=True)
